@@ -814,10 +814,12 @@ func (r *run) symBinop(fr *frame, op token.Token, t types.Type, x, y value, inst
 			}
 		case token.AND:
 			// x & (2^k - 1)
-			if c, ok := concreteMask(y); ok && !ii.signed {
+			// (SMT-LIB mod with a positive divisor is the non-negative remainder, which is
+			// the low k bits of a two's complement value also for negative x)
+			if c, ok := concreteMask(y); ok && (!ii.signed || c < 1<<62) {
 				return &sym{sx("mod", a, smtUint(c+1)), SInt}
 			}
-			if c, ok := concreteMask(x); ok && !ii.signed {
+			if c, ok := concreteMask(x); ok && (!ii.signed || c < 1<<62) {
 				return &sym{sx("mod", b, smtUint(c+1)), SInt}
 			}
 			return r.bvBinop("bvand", ii, a, b)
